@@ -422,10 +422,20 @@ func c03One(text, fam string) (*core.Viol, bool) {
 		if pan != "" {
 			return mk(m.name+":print-"+pan, "printing panicked"), true
 		}
-		// same tree printed again gives the same bytes
-		for k := 0; k < 2; k++ {
+		// same tree printed again gives the same bytes (more repetitions for map literals: Go map iteration order
+		// is random per range statement, a printer that ranged over a Go map would only differ now and then)
+		reps := 2
+		if strings.Contains(text, "{") && strings.Contains(text, ":") {
+			reps = 9
+		}
+		for k := 0; k < reps; k++ {
 			if again, _ := printNode(r.prog, m.compact, false); again != p1 {
 				return mk(m.name+":print-not-deterministic", fmt.Sprintf("%q then %q", p1, again)), true
+			}
+		}
+		if rr := parseText(src, false); rr.clean() {
+			if again, _ := printNode(rr.prog, m.compact, false); again != p1 {
+				return mk(m.name+":print-not-deterministic", fmt.Sprintf("the same text parsed again prints %q, first %q", again, p1)), true
 			}
 		}
 		if !m.compact {
@@ -546,6 +556,31 @@ func runC03(c *core.Ctx) {
 	})
 	if !c.Expired() {
 		c03Histories(c)
+		// a long history: ~1.6 million distinct tokens interned in this process, then the same inputs again
+		if c.Shard == 0 || c.Of <= 1 {
+			cs := core.Case{Kind: "after-dictionary", Data: "formats after 1.6M interned tokens"}
+			c.Current(cs)
+			v := c.Run(func() *core.Viol {
+				probes := append(append([]string{}, c03HistInputs...), "liquid = 2", "costarring = 1", "zzzz = aaaa + qjjjjjj", "abcd", "qabcdef = \"qfedcba\" /*dcba*/")
+				token.Init()
+				golden := make([]string, len(probes))
+				for i, in := range probes {
+					golden[i] = c03Format(in)
+				}
+				c16Dictionary(c, "C03") // (its own verdict is reported separately; here it is the history)
+				for i, in := range probes {
+					if got := c03Format(in); got != golden[i] {
+						return &core.Viol{Class: "history-dependent-format", Detail: fmt.Sprintf("input %q formatted as %s after 1.6M other tokens were seen, %s in a fresh process state", in, got, golden[i]), Case: cs}
+					}
+				}
+				return nil
+			})
+			out := "hist-ok"
+			if v != nil {
+				out = v.Class
+			}
+			c.CountNT("after-dictionary", out, true)
+		}
 		bounds = append(bounds, fmt.Sprintf("interning histories: every permutation of every subset of <=4 of %d inputs, each formatted after each prefix and compared with the fresh-process-state result", len(c03HistInputs)))
 	}
 	c.P.Bound = strings.Join(bounds, "; ") + "; normal and compact mode"
